@@ -30,8 +30,19 @@ def run(tier, seed):
     x = vf.model_check(wd, "MC_Merge.tla", "MC_Merge_quick.cfg" if quick else "MC_Merge_thorough.cfg", "X Merge")
     vf.must_violate(wd, "MC_Merge.tla", "MC_Merge_asfound.cfg", "Merge")
     univ = vf.emit_scenarios(wd, "MC_Merge.tla", "MC_Merge_emit.cfg", minimum=3000)
-    chosen = rnd.sample(univ, 260) if quick else univ
-    scenarios = [{"id": i + 1, "cfg": s["cfg"], "inputs": s["inputs"]} for i, s in enumerate(chosen)]
+    chosen = [dict(s) for s in (rnd.sample(univ, 220) if quick else univ)]
+    # strata of the model's plan that a uniform sample rarely hits, with the harness variant pinned:
+    #  several segments (disjoint inputs) -> dedupe on, blocks of 3 equal rows, file-backed  (var 9)
+    #  partially overlapping inputs       -> blocks of 1100 rows with spread keys and small pages, no dedupe, so that
+    #                                        lone stretches reach the 1024 rows the range refinement needs
+    multi = [s for s in univ if s["nseg"] > 1]
+    partial = [s for s in univ if s["partial"] and 0 not in [k for i in s["inputs"] for k in i]]
+    for s in rnd.sample(multi, min(len(multi), 24 if quick else 400)):
+        chosen.append(dict(s, var=9))
+    for s in rnd.sample(partial, min(len(partial), 16 if quick else 300)):
+        chosen.append(dict(s, var=134))  # block 1100, no dedupe, file-multipage, spread
+    scenarios = [dict({"id": i + 1, "cfg": s["cfg"], "inputs": s["inputs"]}, **({"var": s["var"]} if "var" in s else {}))
+                 for i, s in enumerate(chosen)]
     vf.log(f"[C09] X: {x.distinct} states; scenarios {len(scenarios)}")
     out, verdict, vr, tp = PIPE.run(vh, wd, scenarios, seed)
     cnt = verdict["cnt"]
